@@ -12,7 +12,7 @@ import concurrent.futures as cf
 
 VERIF = os.path.dirname(os.path.dirname(os.path.abspath(__file__)))
 REPO = os.environ.get('VF_REPO', '/repo')
-CACHE = os.path.join(VERIF, '.cache')
+CACHE = os.environ.get('VF_CACHE') or os.path.join(VERIF, '.cache')
 sys.path.insert(0, os.path.join(VERIF, 'lower'))
 
 CBMC_FLAGS = ['--bounds-check', '--pointer-check', '--signed-overflow-check', '--div-by-zero-check',
@@ -407,7 +407,16 @@ def run(cmd, timeout=TIMEOUT, cwd=None):
 
 
 def verify_fn(info, fn, solver=None):
-    """-> dict(fn, obligations=[...], status, seconds, cmd)"""
+    """-> dict(fn, obligations=[...], status, seconds, cmd); a run that dies without a verdict
+    (out of memory while other runs compete for it) is repeated once, alone is enough"""
+    r = verify_fn_once(info, fn, solver)
+    if r.get('status') == 'undecided' and ('Out of memory' in (r.get('why') or '') or 'not JSON' in (r.get('why') or '')):
+        time.sleep(20)
+        r = verify_fn_once(info, fn, solver)
+    return r
+
+
+def verify_fn_once(info, fn, solver=None):
     d = info['dir']
     cfile = info['cfile']
     tag = fn + ('.' + solver if solver else '')
@@ -421,8 +430,8 @@ def verify_fn(info, fn, solver=None):
                 'obligations': [{'name': fn + '.structure.loop_free', 'status': 'FAILURE', 'line': None, 'function': fn,
                                  'desc': '[C14] this read path must be loop-free (wait-free), but the lowered function contains %d loop(s)' % info['loops_closure'][fn]},
                                 {'name': 'vf_reach', 'status': 'FAILURE', 'line': None, 'function': fn, 'desc': 'vf_reach: structural check'}]}
-    a = os.path.join(d, fn + '.a.gb')
-    b = os.path.join(d, fn + '.b.gb')
+    a = os.path.join(d, tag + '.a.gb')
+    b = os.path.join(d, tag + '.b.gb')
     ent = info['entries'][fn]
     cmd1 = ['goto-cc', '-o', a, cfile, '--function', 'vf_h_' + fn]
     rc, so, se = run(cmd1)
